@@ -320,6 +320,60 @@ pub fn c01_drain_all<const N: usize>() {
     finish(m);
 }
 
+/// one solver-chosen operation with solver-chosen arguments, compared with the model
+fn step<const N: usize>(m: &mut micromap::Map<Tok, Tok, N>, md: &mut Model<N>) {
+    let (op, k, v) = (vf::any_u8(), vf::any_u8(), vf::any_u8());
+    vf::assume(op < 7);
+    match op {
+        0 => {
+            vf::assume(md.n < N || md.has(k));
+            let (kt, vt) = (Tok::tagged(k, 1), Tok::new(v));
+            let e = md.insert(k, v, kt.serial(), vt.serial());
+            let r = m.insert(kt, vt);
+            vf::check(r.as_ref().map(|t| t.serial()) == e.map(|x| x.1), 401);
+        }
+        1 => {
+            let (kt, vt) = (Tok::tagged(k, 1), Tok::new(v));
+            let rejected = md.n == N && !md.has(k);
+            let (ks, vs) = (kt.serial(), vt.serial());
+            let r = m.checked_insert(kt, vt);
+            if rejected { vf::check(r.is_none(), 421); } else {
+                let e = md.insert(k, v, ks, vs);
+                vf::check(match r { Some(o) => o.map(|t| t.serial()) == e.map(|x| x.1), None => false }, 422);
+            }
+        }
+        2 => {
+            vf::assume(md.n < N || md.has(k));
+            let (kt, vt) = (Tok::tagged(k, 2), Tok::new(v));
+            let e = md.insert_kv(k, v, kt.serial(), vt.serial());
+            let r = m.insert_key_value(kt, vt);
+            vf::check(r.as_ref().map(|p| (p.0.serial(), p.1.serial())) == e.map(|x| (x.0, x.2)), 411);
+        }
+        3 => {
+            let e = md.remove(k);
+            let r = m.remove(&BKey::free(k));
+            vf::check(r.as_ref().map(|t| t.serial()) == e.map(|x| x.2), 451);
+        }
+        4 => { m.retain(|kk, _| keep(k, kk.key())); md.retain(k); }
+        5 => { m.clear(); md.clear(); }
+        _ => { let mut d = m.drain(); if v & 1 == 1 { drop(d.next()); } drop(d); md.clear(); }
+    }
+    observe(m, md);
+}
+
+/// K-step histories from an empty map (does not rely on the pre-state builder): the solver picks K operations and
+/// their arguments; the model is compared after every step
+pub fn c01_hist<const N: usize, const K: usize>() {
+    tok::reset();
+    let mut m: micromap::Map<Tok, Tok, N> = empty_map();
+    let mut md = Model::<N>::new();
+    let mut i = 0;
+    while i < K { step(&mut m, &mut md); i += 1; }
+    vf::reach(1);
+    well_formed(&m);
+    finish(m);
+}
+
 /// C06: every element reference handed out points inside the bytes of the container value itself
 pub fn c06_refs<const N: usize>() {
     tok::reset();
@@ -376,7 +430,9 @@ harnesses! {
     c01_retain: [0] [1] [2] [3];
     c01_clear: [0] [1] [2] [3];
     c01_drain_all: [0] [1] [2] [3];
+    c01_hist: [2, 2];
     @deep
+    c01_hist: [2, 3] [3, 3] [3, 4];
     c06_refs: [4];
     c06_refs_set: [4];
     c01_insert: [4] [5];
